@@ -40,8 +40,8 @@ ANCHORS = ['pfhedge.nn.functional:european_payoff',
            'pfhedge.instruments.derivative.cliquet:EuropeanForwardStartOption._start_index']
 PYTEST_WORKLOAD = True  # thorough tier also runs /repo/tests with these passive monitors attached (DESIGN.md 2.7)
 DECIDING = ["payoff.european", "payoff.lookback", "payoff.american_binary", "payoff.european_binary",
-            "payoff.forward_start", "payoff.realized_variance", "derivative.payoff_fn", "clauses.order", "relations"]
-REQUIRED_BRANCHES = ["payoff_after_resimulation", "tie_with_unrepresentable_strike", "tie_with_strike", "call", "put", "T=1", "T=2"]
+            "payoff.forward_start", "payoff.realized_variance", "derivative.payoff_fn", "clauses.order", "clauses.registry", "relations"]
+REQUIRED_BRANCHES = ["clauses.same_callable_registered_twice", "payoff_after_resimulation", "tie_with_unrepresentable_strike", "tie_with_strike", "call", "put", "T=1", "T=2"]
 
 _CTX = None
 MAXR = 12
@@ -454,8 +454,20 @@ def drv_derivative(ctx, k, rng):
     names = list(lib)
     m = int(pick(rng, [0, 1, 2, 3, 4]))
     order = [names[i] for i in rng.permutation(len(names))[:m]]
-    for nm in order:
-        d.add_clause(nm, lib[nm][0])
+    # the same (non-idempotent) clause may be registered more than once under different names - a fee charged twice, a write-down applied at two dates
+    if m >= 1 and rng.random() < 0.35:
+        rep = order[int(rng.integers(len(order)))]
+        order.insert(int(rng.integers(len(order) + 1)), rep)
+        ctx.branch("clauses.same_callable_registered_twice")
+    for j, nm in enumerate(order):
+        d.add_clause("%s_%d" % (nm, j), lib[nm][0])
+    if k % 2 and order:
+        # replacing a clause under its existing name keeps its position and does not add one
+        d.add_clause("%s_%d" % (order[0], 0), lib[order[0]][0])
+    ctx.seen("clauses.registry")
+    ctx.check("clauses.registry", [n_ for n_, _ in d.named_clauses()] == ["%s_%d" % (nm, j) for j, nm in enumerate(order)] and len(list(d.clauses())) == len(order),
+              "clause_registry", f"named_clauses() does not list the {len(order)} registered clauses in order", sig=(len(order),), clauses=order,
+              listed=[n_ for n_, _ in d.named_clauses()])
     got = d.payoff()
     want = d.payoff_fn()
     spot = stock.spot
